@@ -202,8 +202,10 @@ class SyncedDict(SyncedCollection, MutableMapping):
                 with self._load_and_save:
                     self._update(data)
                 return
-            self._update(data)
+            # Update and save under the lock: otherwise a concurrent mutator can load
+            # between the two steps and the reset is lost (or partially applied).
             with self._thread_lock:
+                self._update(data)
                 self._save()
         else:
             raise ValueError(
@@ -246,8 +248,8 @@ class SyncedDict(SyncedCollection, MutableMapping):
             return
         # Clear in place: buffered collections may share the container with the
         # buffer, and rebinding the attribute would silently disconnect them.
-        self._data.clear()
         with self._thread_lock:
+            self._data.clear()
             self._save()
 
     def update(self, other=None, **kwargs):  # noqa: D102
